@@ -447,6 +447,7 @@ func chainReplay(args []string) {
 
 					// ---- the chain as real signed requests
 					reqs := make([][]byte, len(cl.Ops))
+					oddDelta := map[int]bool{}
 					commitOf := func(id int) string { return refCommitment(jwkMap(keyOf(id)), algOfKey(id)) }
 
 					for i, o := range cl.Ops {
@@ -457,6 +458,18 @@ func chainReplay(args []string) {
 
 						if o.Nu != 0 {
 							delta["updateCommitment"] = commitOf(o.Nu)
+						}
+
+						// an anchored operation stays readable whatever its delta holds: every third recover / update carries a patch
+						// that is no patch of this protocol version (an action of a later version, a replace without its document,
+						// no action at all) - it is a link of its chain all the same
+						if o.Type != "create" && (i+len(cl.Ops))%3 == 0 {
+							oddDelta[i] = true
+							delta["patches"] = []interface{}{
+								map[string]interface{}{"action": "add-verification-relationships", "relationships": []interface{}{"x"}},
+								map[string]interface{}{"action": "replace"},
+								map[string]interface{}{"publicKeys": []interface{}{}},
+							}[i%3 : i%3+1]
 						}
 
 						if o.Type == "create" {
@@ -599,8 +612,26 @@ func chainReplay(args []string) {
 						}
 					}
 
+					// an operation of exactly the maximum operation size is within the limit: it is a link of its chain like any other
+					for i := 1; i < len(reqs); i++ {
+						exact := p
+						exact.MaxOperationSize = uint(len(reqs[i]))
+
+						want1, werr1 := anchoredParser.GetRevealValue(reqs[i])
+						got1, gerr1 := operationparser.New(exact).GetRevealValue(reqs[i])
+						want2, werr2 := anchoredParser.GetCommitment(reqs[i])
+						got2, gerr2 := operationparser.New(exact).GetCommitment(reqs[i])
+
+						if got1 != want1 || got2 != want2 || (gerr1 == nil) != (werr1 == nil) || (gerr2 == nil) != (werr2 == nil) {
+							fail("get-commitment", fmt.Sprintf("operation %d under a maximum operation size that is its own size (%d bytes)", i+1, len(reqs[i])),
+								map[string]interface{}{"reveal": want1, "commitment": want2}, map[string]interface{}{"reveal": got1, "commitment": got2, "errors": fmt.Sprint(gerr1, gerr2)})
+							return
+						}
+					}
+
 					for i, o := range cl.Ops {
-						if _, err := parser.Parse("did:sidetree", reqs[i]); err != nil {
+						// (a request whose delta holds no patch of this version is not accepted at submission; it is read when anchored)
+						if _, err := parser.Parse("did:sidetree", reqs[i]); err != nil && !oddDelta[i] {
 							fail("chain-request-rejected", fmt.Sprintf("operation %d (%s): %v", i+1, o.Type, err), nil, string(reqs[i]))
 							return
 						}
